@@ -249,7 +249,7 @@ theorem gateToken_nil (natives : List GateDef) (name : String) : Cls Good (gateT
   split at h
   · cases h; exact Good.jaqal _
   · rename_i gd _
-    cases hu : gd.hasUnitary <;> simp [hu, emuArgs_nil, bind, Except.bind, pure, Except.pure] at h
+    cases hu : gd.hasUnitary <;> simp [gateArgs, hu, emuArgs_nil, bind, Except.bind, pure, Except.pure] at h
 
 /-- what is assumed of the gates of the expanded circuit: emulating any one of them fails with `JaqalError` only -/
 def EmuClass (natives : List GateDef) (tbl : List GateRec) : Prop :=
